@@ -85,9 +85,17 @@ T = [
 ("R4-C02",2,"db19","TestDemoR4C02_2$","an iteration opened before the transaction's first write to a fully persisted index","missed by C02 (caught by C01.4)","C02.11 (C01.4 added to C02): SimpleIter only for read transactions"),
 ("R4-C42",1,"builtin","TestDemoR4C42_1$","a block that throws after the checker already aborted its transaction (conflict/timeout)","missed","C42.7 / C03.11 (added): CheckCo.Abort queues the abort on every path"),
 ("R4-C42",2,"builtin","TestDemoR4C42_2$","a block left with break or continue","caught","C42.2 scenarios"),
+("R4-C39",1,"util/ranges","TestDemoR4C39_1$","a full tree node, a full leaf, and a range between that leaf's end and the next leaf's start","missed","C39.6 (added): the receiving leaf is always the one searchBinary(key) selects"),
+("R4-C39",2,"util/lrucache","TestDemoR4C39_2$","a requested size above 223 and more than 256 distinct keys","missed","C39.3 (added): every capacity fits the index type of Cache.lru"),
+("R4-C39",3,"util/cache","TestDemoR4C39_3$","Get of the zero-valued key on a cache that is not yet full","missed","C39.4 (added): a hit needs a slot marked used (here: the field is gone — mechanism missing)"),
+("R4-C30",1,"compile","TestDemoR4C30_1$","a local assigned a constant in one case of a switch and read in a later case","missed","C30.9 (added): every iteration over Switch.Cases ends with the restore of the known values"),
+("R4-C30",2,"compile","TestDemoR4C30_2$","`in` with a constant left side and a list mixing constants and variables, no constant match","missed","C30.11 (added): foldIn goes on to the next member only past a constant member"),
+("R4-C30",3,"compile","TestDemoR4C30_3$","a constant false/true in the middle of an and/or list followed by a constant operation that throws","missed","C30.10 (added): the short-circuit flag is updated from the operand before the current one"),
+("R4-C18",1,"db19/stor","TestDemoR4C18_1$","two allocators at a chunk transition (race; several hundred rounds)","caught","C18.2 allocChunk.Load before size.Add"),
+("R4-C18",2,"db19/stor","TestDemoR4C18_2$","two allocators at a chunk transition (race); only silent overlaps","missed","C18.2 (strengthened): allocChunk is never loaded after size.Add within one attempt"),
 ]
 conf = {}
-for log in ("/tmp/seed/confirm.log", "/tmp/seed/confirm2.log", "/tmp/seed/confirm3.log", "/tmp/seed/confirm4.log", "/tmp/seed/confirm4a.log", "/tmp/seed/confirm4b.log", "/tmp/seed/confirm5.log"):
+for log in ("/tmp/seed/confirm.log", "/tmp/seed/confirm2.log", "/tmp/seed/confirm3.log", "/tmp/seed/confirm4.log", "/tmp/seed/confirm4a.log", "/tmp/seed/confirm4b.log", "/tmp/seed/confirm5.log", "/tmp/seed/confirm6.log"):
     if not os.path.exists(log): continue
     cur = None
     for l in open(log):
